@@ -33,6 +33,7 @@ type binConn struct {
 	mu    sync.Mutex
 	calls []string // reverse requests received (method names)
 	repl  chan string
+	mode  string // how this host answers what the pool asks for: "" = acknowledge, "refuse" = JSON-RPC error
 }
 
 type poolBinComp struct {
@@ -105,9 +106,15 @@ func (c *poolBinComp) dial(name string) *binConn {
 				// a well-behaved host: acknowledge what the pool asks for
 				bc.mu.Lock()
 				bc.calls = append(bc.calls, strings.Trim(string(meth), `"`))
+				mode := bc.mode
 				bc.mu.Unlock()
 				if id, ok := m["id"]; ok {
-					ws.WriteMessage(websocket.TextMessage, []byte(`{"jsonrpc":"2.0","id":`+string(id)+`,"result":null}`))
+					if mode == "refuse" {
+						// the host's node refused the instruction: an RPC error reply, the connection stays up
+						ws.WriteMessage(websocket.TextMessage, []byte(`{"jsonrpc":"2.0","id":`+string(id)+`,"error":{"code":-32000,"message":"admin_addTrustedPeer refused"}}`))
+					} else {
+						ws.WriteMessage(websocket.TextMessage, []byte(`{"jsonrpc":"2.0","id":`+string(id)+`,"result":null}`))
+					}
 				}
 				continue
 			}
@@ -165,6 +172,14 @@ func (c *poolBinComp) Exec(t []string) (extra []string, out string, eff bool) {
 		case <-time.After(3 * time.Second):
 			return nil, "err timeout", false
 		}
+	case "hostmode":
+		// hostmode <conn> ack|refuse
+		if bc := c.conns[t[1]]; bc != nil {
+			bc.mu.Lock()
+			bc.mode = map[string]string{"ack": "", "refuse": "refuse"}[t[2]]
+			bc.mu.Unlock()
+		}
+		return nil, "ok", false
 	case "closeconn":
 		// closeconn <conn> <how>
 		bc := c.conns[t[1]]
@@ -228,7 +243,7 @@ func (c *poolBinComp) Exec(t []string) (extra []string, out string, eff bool) {
 			case strings.Contains(msg, "no available host"):
 				return nil, "err NoHosts wl=" + strings.Join(wl, ","), false
 			case strings.Contains(msg, "failed to call"):
-				return nil, "err RemoteHostErrors:the_pool_called_a_connection_that_is_gone wl=" + strings.Join(wl, ","), false
+				return nil, "err HostsFailed wl=" + strings.Join(wl, ","), false
 			}
 			return nil, "err " + strings.Replace(canon(msg), " ", "_", -1), false
 		}
@@ -252,7 +267,9 @@ func (c *poolBinComp) Gen(r *rand.Rand, idx int, emit func(string)) {
 	}
 	emit("peer")
 	for i := 0; i < 2+r.Intn(4); i++ {
-		switch r.Intn(5) {
+		switch r.Intn(6) {
+		case 5:
+			emit(fmt.Sprintf("hostmode c%d %s", r.Intn(nh), pick(r, []string{"refuse", "refuse", "ack"})))
 		case 0, 1:
 			emit(fmt.Sprintf("closeconn c%d %s", r.Intn(nh+1), hows[(idx+i)%len(hows)]))
 		case 2:
